@@ -69,6 +69,12 @@ PairTalliesAreProductTallies == \A S \in SUBSET Qubits : \A T \in SUBSET Qubits 
    /\ PairTallyDef(S, T) = PairTallyDef(T, S) /\ PairTallyDef(S, S) = <<N, 0>>
 MeanFromTallies == N >= 1 => \A S \in SUBSET Qubits : MeanEig(S) = RNorm(ParityTally(S)[1] - ParityTally(S)[2], N)
 
+\* complementing every outcome multiplies the eigenvalue of a term by (-1)^|support|: the statistics of the complemented
+\* histogram are determined by those of the histogram (used when one histogram buffer is refilled in place)
+Compl(t) == [q \in 1..W |-> 1 - t[q]]
+ComplementLaw == \A S \in SUBSET Qubits : \A k \in 1..N :
+   Eig(S, Compl(shots[k])) = (IF Cardinality(S) % 2 = 0 THEN 1 ELSE -1) * Eig(S, shots[k])
+
 \* ---- expectation values recomputed from parity tallies (get_expectation_values_from_parities) -------------------
 \* value = 2*N0/N - 1; squared precision = 4p(1-p)/N when N >= 100 and 1/10 <= p <= 9/10, else the bound 1/N
 ValueFromTally(t) == RNorm(t[1] - t[2], t[1] + t[2])
